@@ -22,10 +22,11 @@ MODES = ('always', 'remote', 'nonlocal', 'never')
 XSI = 'http://www.w3.org/2001/XMLSchema-instance'
 
 PAYLOADS = ('internal', 'nested', 'parameter', 'external_file', 'external_http', 'unparsed', 'ext_subset',
-            'unused', 'attr_only', 'benign_empty_subset', 'benign_element_decl', 'benign_none')
+            'unused', 'attr_only', 'ext_subset_empty_id', 'benign_empty_subset', 'benign_element_decl', 'benign_none')
 BENIGN = ('benign_empty_subset', 'benign_element_decl', 'benign_none')
 PROLOGS = ('plain', 'bom8', 'utf16', 'latin1', 'pad9k', 'pad17k', 'pad66k', 'subsetpad66k', 'standalone', 'standalone')
-ROLES = ('instance', 'instance_lazy', 'validate', 'main_schema', 'included', 'imported', 'redefined', 'hinted', 'docapi_schema')
+ROLES = ('instance', 'instance_lazy', 'validate', 'main_schema', 'included', 'imported', 'redefined', 'hinted', 'docapi_schema',
+         'schema_from_settings', 'xmldocument_parse')
 
 # channel catalogue: (name, kind, seekable, url attribute, base_url class)
 CHANNELS = []
@@ -70,6 +71,8 @@ def doctype(payload, root, secret_file_url, secret_http_url, dtd_url, pad_subset
                 f'<!ATTLIST {root} e ENTITY #IMPLIED>\n]>')
     if payload == 'ext_subset':
         return f'<!DOCTYPE {root} SYSTEM "{dtd_url}">'
+    if payload == 'ext_subset_empty_id':
+        return f'<!DOCTYPE {root} SYSTEM "">'        # an external subset all the same: the empty system literal
     if payload == 'benign_empty_subset':
         return f'<!DOCTYPE {root} [\n{pad}]>'
     if payload == 'benign_element_decl':
@@ -166,11 +169,12 @@ class C13(Check):
         if role == 'hinted':
             chan = rng.choice([x for x in CHANNELS if x[0] in ('path', 'fileurl', 'http')])
         peer = 'constant'
-        if role == 'docapi_schema' and chan[1] in ('raw', 'buffered', 'textio', 'duck', 'stringio', 'bytesio'):
+        if role in ('docapi_schema', 'schema_from_settings') and chan[1] in ('raw', 'buffered', 'textio', 'duck', 'stringio', 'bytesio'):
             chan = rng.choice([x for x in CHANNELS if x[0] in ('path', 'fileurl', 'http', 'text-base-None', 'text-base-remote')])
         if chan[1] in ('text', 'stringio', 'textio') and prolog in ('bom8', 'utf16', 'latin1'):
             prolog = 'plain'
-        if chan[1] in ('http_nopath', 'http_query', 'http_opaque') and role not in ('instance', 'instance_lazy', 'validate', 'main_schema'):
+        if chan[1] in ('http_nopath', 'http_query', 'http_opaque') and role not in ('instance', 'instance_lazy', 'validate', 'main_schema',
+                                                                                       'xmldocument_parse'):
             role = rng.choice(['instance', 'instance_lazy', 'validate', 'main_schema'])
         if chan[1] in ('http', 'http_opener') and rng.random() < 0.5:
             peer = rng.choice(['payload_then_benign', 'benign_then_payload'])
@@ -227,7 +231,8 @@ class C13(Check):
                 fp.write(f'<!ENTITY x "{MARK}">\n')
             urls = ('file://' + os.path.join(world, 'secret.txt'), 'http://sim.test/secret.txt',
                     'file://' + os.path.join(world, 'ext.dtd'))
-            is_schema = role in ('main_schema', 'included', 'imported', 'redefined', 'hinted', 'docapi_schema')
+            is_schema = role in ('main_schema', 'included', 'imported', 'redefined', 'hinted', 'docapi_schema',
+                                 'schema_from_settings')
             tns = 'urn:imp' if role == 'imported' else None
             doc = build_doc(payload, prolog, is_schema, urls, tns)
             benign = build_doc('benign_none', 'plain', is_schema, urls, tns)
@@ -420,6 +425,24 @@ class C13(Check):
                 src = source_for(doc, 'main.xsd', 'http://sim.test/main.xsd')
                 schema = xmlschema.XMLSchema(src, base_url=base_url, defuse=mode, opener=opener)
                 trees += [s.root for s in schema.maps.iter_schemas() if s.meta_schema is not None]
+            elif role == 'schema_from_settings':
+                # the alternative constructor: stored settings plus keyword overrides (the defuse mode is an override)
+                from xmlschema.settings import SchemaSettings
+                src = source_for(doc, 'main.xsd', 'http://sim.test/main.xsd')
+                kw = {'base_url': base_url} if base_url is not None else {}
+                schema = xmlschema.XMLSchema.from_settings(SchemaSettings(), src, defuse=mode, **kw)
+                trees += [s_.root for s_ in schema.maps.iter_schemas() if s_.meta_schema is not None]
+            elif role == 'xmldocument_parse':
+                # a document object built on harmless data, then asked to parse the payload: the second parse runs
+                # with the arguments the object was built with
+                src = source_for(doc, 'doc.xml', 'http://sim.test/doc.xml')
+                kw = {'base_url': base_url} if base_url is not None else {}
+                if opener is not None:
+                    kw['opener'] = opener
+                xdoc = xmlschema.XmlDocument('<root><child k="v">t</child></root>', schema=self.schemas[mode],
+                                             defuse=mode, validation='skip', **kw)
+                xdoc.parse(src, lazy=False)
+                trees.append(xdoc.root)
             elif role == 'docapi_schema':
                 # the document-level API builds the schema from a SOURCE given by the caller, with the defuse argument
                 # of the call (xmlschema.validate(doc, schema='main.xsd', defuse='always') and friends)
